@@ -14,7 +14,7 @@ def run(ctx):
     from ahbicht.models.validation_values import RequirementValidationValue as R
     from ahbicht.validation.validation import validate_data_element_valuepool
 
-    built = prepare(ctx, ["Gen_logic", "Gen_ranges", "Gen_valmaps", "Gen_enums"], ["Props/C17.vo", "Corr/Validate.vo"])
+    built = prepare(ctx, ["Gen_logic", "Gen_ranges", "Gen_valmaps", "Gen_enums", "Gen_pool"], ["Props/C17.vo", "Corr/Validate.vo"])
     terms, metas = [], []
     n_nontrivial = 0
     for _ in range(250 if ctx.quick else 6000):
